@@ -8,6 +8,10 @@
              has been handed to _send; `bufferedamountlow` fires exactly on downward crossings (finite evaluation)
   C13-ID     automatic ids start with different parity per role and advance by 2; a stream reset is only queued for a
              channel that has an id; when the association closes every remaining channel is closed unconditionally
+  C13-CLOSEALL every container of the transport that can hold a channel (registered table, pending-message queue) is drained when the
+             association closes
+  C13-LIFE   (rules/C13life.py) lifecycle scenarios between two abstract transports evaluated end to end: open with every settings class,
+             messages both ways, close from either side, id reuse, simultaneous opens, negotiated pairs, close before the ACK, overlapping closes
   C13-RESETQ completing a stream-reset request clears it and then restarts _transmit_reconfig (overlapping close() calls)
 Does not decide: behaviour under fault schedules and open/close races beyond the transition relation.
 """
